@@ -189,6 +189,18 @@ package httpgen
 //@   at-call Handle requires pattern3: count("Handle") == old(count("Handle")) + 2 ==> arg0 == "POST /api/v1/notes/list"
 //@   at-call Handle requires own_handler: arg1 == lastRetIface("BindingMiddleware")
 
+// the per-service and per-route header tables carry every declared header with its declared name, type, format and
+// required flag, whatever the type is (an unset type is validated as a string, with its format): instance check on the
+// extraction schema
+//@ emitted func getNoteServiceHeaders() (r []*sebufhttp.Header)
+//@   ensures as_declared: len(r) == 1 && r[0] != nil && r[0].Name == "X-API-Key" && r[0].Type == "string" && r[0].Format == "" && r[0].Required
+//@ emitted func getGetNoteHeaders() (r []*sebufhttp.Header)
+//@   ensures as_declared: len(r) == 0
+//@ emitted func getUpdateNoteHeaders() (r []*sebufhttp.Header)
+//@   ensures as_declared: len(r) == 3 && r[0] != nil && r[1] != nil && r[2] != nil && r[0].Name == "X-Request-ID" && r[0].Type == "string" && r[0].Format == "uuid" && r[0].Required && r[1].Name == "X-API-Key" && r[1].Type == "integer" && r[1].Format == "" && r[1].Required && r[2].Name == "X-Trace" && r[2].Type == "" && r[2].Format == "date-time" && r[2].Required
+//@ emitted func getListNotesHeaders() (r []*sebufhttp.Header)
+//@   ensures as_declared: len(r) == 1 && r[0] != nil && r[0].Name == "X-API-Key" && r[0].Type == "string" && r[0].Format == "" && !r[0].Required
+
 //@ emitted func BindingMiddleware(next any, serviceHeaders any, methodHeaders any, pathParams any, queryParams any, httpMethod string, errorHandler any) (h nethttp.Handler)
 //@ emitted func genericHandler(serve any, errorHandler any) (h nethttp.HandlerFunc)
 //@ emitted func getConfiguration(options any) (c *serverConfiguration)
